@@ -14,7 +14,7 @@ PATHS_ALL = ["src/co-7-fig.rs", "a b/c d.txt", "Makefile", "x.y/z_1.tar.gz", "Ma
              "Makefile-win.mk", "x.y/z_1.tar.gz=old.bak"]
 PLAIN_OK = {0, 1, 2, 3, 6, 7}          # the unambiguous class for plain-text grep output (see the statement)
 CODES = ["  let foo = 1;", "\tfoo(bar)", "foo", "x: foo - 7 = foo", "foo 世界 foo", "", "\t\tif foo { é }",
-         "  \tint foo;", " \t \tfoo = foo", "no match here"]
+         "  \tint foo;", " \t \tfoo = foo", "    ", "foo " + "x" * 3100 + " foo", "no match here"]
 RS = ["--no-gitconfig", "--syntax-theme", "none", "--grep-file-style", "35", "--grep-line-number-style", "36",
       "--grep-match-word-style", "37", "--grep-match-line-style", "45", "--grep-context-line-style", "38",
       "--grep-header-decoration-style", "none", "--grep-header-file-style", "46", "--hunk-header-style", "25 file line-number",
@@ -98,6 +98,10 @@ def run(tier):
     t0 = time.time()
     V = core.Verdict(PID)
     rnd = random.Random(core.seed())
+    mc = tlc.run_tlc("MC_Grep", cfg="MC_Grep", workers=8, coverage=False, timeout=900)
+    tlc.require_ok(mc, "MC_Grep")
+    if mc.violated:
+        V.drift.append(f"module=Grep design-level {mc.violated} violated")
     types = ["match", "context", "header"]
     # record sequences: exhaustive structure for short streams, seeded for longer ones
     seqs = []
@@ -129,6 +133,8 @@ def run(tier):
             c = r2.randrange(len(CODES) - 1) if t == "match" else r2.randrange(len(CODES))
             if t == "match" and "foo" not in CODES[c]:
                 c = 2
+            if len(CODES[c]) > 3000 and not fmt.startswith("json"):
+                c = 2          # (a plain or coloured line beyond --max-line-length is truncated; rg --json records are exempt)
             recs.append((pa if pi == 0 else pb, line if numbered else 0, t, c))
         jobs.append((recs, fmt, style))
     stubdir = os.path.join(core.scratch(), "c16")
@@ -168,7 +174,10 @@ def run(tier):
                     j = full.find("foo", j + 3)
             rr.append({"p": p + 1, "n": n, "t": t, "c": intern(code.encode()), "sm": sm})
         events.append({"run": i, "style": style, "recs": rr, "rows": parse_rows(r.out, intern, style),
-                       "code": 999 if r.timed_out else r.code, "empty": intern(b"")})
+                       "code": 999 if r.timed_out else r.code, "empty": intern(b""),
+                       # (the classic style draws a function-context header like a hunk header, with decoration rows: the
+                       # row-kind prediction is compared for the ripgrep style and for classic streams without such lines)
+                       "model": style == "ripgrep" or all(t != "header" for p, n, t, c in recs)})
     # default styles, classic output: the function-context header line (`git grep -W`: path=N=code) must name its file
     f = os.path.join(stubdir, "ctxhdr.txt")
     with open(f, "wb") as fh:
@@ -184,6 +193,10 @@ def run(tier):
         V.violation("classic-context-header-without-path", f"the function-context header line is shown as {hdr_rows[0].strip()!r}: without its path",
                     {"run": r.to_json()})
     failed, tr = tlc.validate_trace("Trace_Grep", events)
+    drifts = [x for t, v in tr.printed if t == "DRIFT" for x in (v if isinstance(v, list) else [])]
+    for d in drifts[:5]:
+        recs, fmt, style = jobs[d]
+        V.drift.append(f"module=Grep rows written differ from the model: {fmt} as {style}: " + " ".join(f"{PATHS_ALL[p]}{SEP[t]}{n}" for p, n, t, c in recs)[:200])
     log(f"[{PID}] {len(events)} grep result streams judged by TLC (Trace_Grep), {len(failed)} rejected")
     for f in failed:
         recs, fmt, style = jobs[f["run"]]
@@ -192,7 +205,7 @@ def run(tier):
                     {"recs": recs, "fmt": fmt, "style": style, "run": res[f["run"]].to_json()})
     rc = V.finish()
     core.write_evidence(PID, tier, "model_checking", {
-        "states": tr.distinct, "transitions": tr.generated, "traces_validated_against_impl": len(events),
+        "states": mc.distinct, "transitions": mc.generated, "monitor_states": tr.distinct, "drift_against_Grep": len(drifts), "traces_validated_against_impl": len(events),
         "evaluations": len(events), "distinct_nontrivial": len({json.dumps(j) for j in jobs}),
         "rule": f"every sequence of <= {maxn} records over 2 paths x (match, context, function-context header) plus seeded sequences "
                 "of 4-9 records; line numbers present/absent with gaps 1, 2, 6 (context discontinuities); formats: coloured git grep, "
